@@ -357,3 +357,96 @@ func RunReplayAll(fn func()) bool {
 	}
 	return ok
 }
+
+// conversions on symbolic data (the engine calls these instead of the built-in conversion)
+func StringToRunes(s string) []rune {
+	var out []rune
+	for len(s) > 0 {
+		r, n := DecodeRuneInString(s)
+		out = append(out, r)
+		s = s[n:]
+	}
+	return out
+}
+func RunesToString(rs []rune) string {
+	var b []byte
+	for _, r := range rs {
+		b = utf8AppendRune(b, r)
+	}
+	return string(b)
+}
+func RuneToString(r rune) string { return string(utf8AppendRune(nil, r)) }
+
+// DecodeRuneInString is a branch-structured equivalent of utf8.DecodeRuneInString (the std
+// version is table driven and branch-free on the ASCII path, which gives the solver 256-way
+// case splits).  The engine redirects utf8.DecodeRuneInString / DecodeRune here; the
+// equivalence with the std functions is itself decided by the lemma_utf8 harness.
+func DecodeRuneInString(s string) (rune, int) {
+	n := len(s)
+	if n < 1 {
+		return 0xFFFD, 0
+	}
+	s0 := s[0]
+	if s0 < 0x80 {
+		return rune(s0), 1
+	}
+	if s0 < 0xC2 || s0 > 0xF4 {
+		return 0xFFFD, 1
+	}
+	if s0 < 0xE0 {
+		if n < 2 {
+			return 0xFFFD, 1
+		}
+		s1 := s[1]
+		if s1 < 0x80 || s1 > 0xBF {
+			return 0xFFFD, 1
+		}
+		return rune(s0&0x1F)<<6 | rune(s1&0x3F), 2
+	}
+	if s0 < 0xF0 {
+		if n < 3 {
+			return 0xFFFD, 1
+		}
+		lo, hi := byte(0x80), byte(0xBF)
+		if s0 == 0xE0 {
+			lo = 0xA0
+		}
+		if s0 == 0xED {
+			hi = 0x9F
+		}
+		s1, s2 := s[1], s[2]
+		if s1 < lo || s1 > hi {
+			return 0xFFFD, 1
+		}
+		if s2 < 0x80 || s2 > 0xBF {
+			return 0xFFFD, 1
+		}
+		return rune(s0&0x0F)<<12 | rune(s1&0x3F)<<6 | rune(s2&0x3F), 3
+	}
+	if n < 4 {
+		return 0xFFFD, 1
+	}
+	lo, hi := byte(0x80), byte(0xBF)
+	if s0 == 0xF0 {
+		lo = 0x90
+	}
+	if s0 == 0xF4 {
+		hi = 0x8F
+	}
+	s1, s2, s3 := s[1], s[2], s[3]
+	if s1 < lo || s1 > hi {
+		return 0xFFFD, 1
+	}
+	if s2 < 0x80 || s2 > 0xBF {
+		return 0xFFFD, 1
+	}
+	if s3 < 0x80 || s3 > 0xBF {
+		return 0xFFFD, 1
+	}
+	return rune(s0&0x07)<<18 | rune(s1&0x3F)<<12 | rune(s2&0x3F)<<6 | rune(s3&0x3F), 4
+}
+
+func DecodeRune(p []byte) (rune, int) { return DecodeRuneInString(string(p)) }
+
+// StdDecodeRuneInString calls the real function (never redirected: used by the lemma harness).
+func StdDecodeRuneInString(s string) (rune, int) { return utf8DecodeRuneInString(s) }
